@@ -116,6 +116,10 @@ pub struct PropertyDef {
     pub exhaustive: Option<fn(&Ctx, Emit) -> String>,
     /// run the exhaustive part in the quick tier too
     pub exhaustive_in_quick: bool,
+    /// a driver of its own (compile pipeline): fills the statistics; Err = infrastructure problem
+    pub custom: Option<fn(Tier, u64, &mut Stats) -> Result<(), String>>,
+    /// replay of one case of a custom-driven family: (family, bytes) -> case result
+    pub custom_replay: Option<fn(&str, &[u8], &Ctx) -> Result<CaseInfo, String>>,
 }
 
 #[derive(Default)]
@@ -467,6 +471,14 @@ pub fn run_property(prop: &PropertyDef, tier: Tier, seed: u64) -> RunResult {
         stats.merge(s);
     }
 
+    // 4b. custom driver (compile pipeline)
+    if let Some(c) = prop.custom {
+        if let Err(e) = c(tier, seed, &mut stats) {
+            eprintln!("INFRA: {}", e);
+            infra_problem = true;
+        }
+    }
+
     // 5. exhaustive sub-space
     let mut exhaustive_desc = None;
     if let Some(ex) = prop.exhaustive {
@@ -626,10 +638,19 @@ pub fn replay(props: &[PropertyDef], path: &str, strict: bool) -> i32 {
         let bytes = unhex(v["bytes"].as_str().unwrap_or(""));
         match prop.families.iter().find(|f| f.name == fam) {
             Some(f) => (f.run)(&bytes, &ctx),
-            None => {
-                eprintln!("unknown family {}", fam);
-                return 2;
-            }
+            None => match prop.custom_replay {
+                Some(r) => match r(fam, &bytes, &ctx) {
+                    Ok(i) => i,
+                    Err(e) => {
+                        eprintln!("INFRA: {}", e);
+                        return 2;
+                    }
+                },
+                None => {
+                    eprintln!("unknown family {}", fam);
+                    return 2;
+                }
+            },
         }
     };
     if let Some(s) = &info.sample {
